@@ -283,6 +283,29 @@ func (e *Env) eval(v ssa.Value, depth int) Vec {
 					return a.shr(int(n))
 				}
 			}
+			// a shift count that is a parameter bound to a constant at the call site
+			if cnt := e.eval(x.Y, depth+1); true {
+				n, known := 0, true
+				for i := range cnt {
+					switch cnt[i].K {
+					case One:
+						if i < 8 {
+							n |= 1 << uint(i)
+						} else {
+							known = false
+						}
+					case Zero:
+					default:
+						known = false
+					}
+				}
+				if known && n < Width {
+					if x.Op == token.SHL {
+						return a.shl(n).trunc(bitSize(x.Type()))
+					}
+					return a.shr(n)
+				}
+			}
 		}
 	case *ssa.Convert:
 		in := e.eval(x.X, depth+1)
